@@ -28,7 +28,7 @@ enum { B_TSFT = 0, B_FLAGS = 1, B_RATE = 2, B_CHANNEL = 3, B_DBM_SIGNAL = 5, B_D
 static const u8 FLAG_FCS = 0x10, FLAG_FAILED_FCS = 0x40;
 
 struct Model {
-    bool has[NBITS]; u8 val[NBITS][12];
+    bool has[NBITS]; u8 val[NBITS][12]; u32 spare = 0;      // spare: octets between the last field and the end the header length announces (capture drivers round it_len up); they stay where they are, behind the fields
     Model() { memset(has, 0, sizeof has); memset(val, 0, sizeof val); }
     u32 mask() const { u32 m = 0; for (int b = 0; b < NBITS; ++b) if (has[b]) m |= 1u << b; return m; }
     void set(int b, const u8* v) { has[b] = true; memcpy(val[b], v, FD[b].size); }
@@ -44,6 +44,7 @@ static Bytes canonical(const Model& m, u32* pos = nullptr) {
         if (pos) pos[b] = (u32)out.size();
         out.insert(out.end(), m.val[b], m.val[b] + FD[b].size);
     }
+    out.insert(out.end(), m.spare, 0);
     return out;
 }
 // Trigger shape of the known update_paddings defect (C11-1), decided on the model only: a field that is not yet
@@ -341,6 +342,7 @@ static Model gen_parsed_model(Rng& r) {
     for (int b : SETTABLE) if (r.below(16) < dens) { gen_parsed_value(r, b, v); m.set(b, v); }
     if (r.chance(1, 3)) for (int b : EXTRA) if (r.chance(1, 3)) { for (u32 i = 0; i < 12; ++i) v[i] = r.byte(); m.set(b, v); }
     if (m.failed_fcs()) m.val[B_FLAGS][0] &= (u8)~FLAG_FAILED_FCS;
+    if (m.mask() && r.chance(1, 5)) { m.spare = 1 + r.below(7); cnt("start:parsed-with-spare-octets-behind-the-fields"); }
     return m;
 }
 static Case gen_random(Rng& r) {
